@@ -9,6 +9,7 @@
 mod env;
 mod layoutcmd;
 mod mapdrv;
+mod primscmd;
 mod scen;
 mod setdrv;
 mod tabledrv;
@@ -62,6 +63,7 @@ fn main() {
         "drive" => scen::drive(&out, seed, &rest),
         "replay" => scen::replay(&out, seed, &rest),
         "layout" => layoutcmd::run(&out, seed, &rest),
+        "prims" => primscmd::run(&out, seed, &rest),
         "width" => {
             println!("{}", hashbrown::verif::GROUP_WIDTH);
             0
